@@ -57,6 +57,8 @@ FIXED = [
  ("C11", "C11-tbe-per-branch-only-panic", "TBE panicked when per-branch transfer tables were requested", "support.TBE with computeperbranchtaxa=true and computeavgtaxa=false (--per-branches without --moved-taxa) panicked with index out of range, with one thread and with several: the per-taxon accumulator was updated although it is only allocated for the per-taxon table (30-tip reference, 4 bootstrap copies)"),
  ("C03", "C03-nni-apply-after-reroot", "NNI Apply left the central branch wrongly oriented", "a rearrangement handle applied after Reroot into the n2-side clade it exchanges returned nil and left an ill-oriented tree: (a,b,((c,d)Z,(e,f)W)Y)R; proposal 0, Reroot(W), Apply: Edges() listed 4 branches for 10 nodes (counterpart of C03-nni-undo-after-reroot; the central branch was only inverted when the root lay behind n1_2)"),
  ("C09", "C09-nan-threshold-accepted", "Consensus accepted a NaN threshold", "tree.Consensus(trees, NaN) was not refused (the range test is false for NaN): with compatible trees it kept every split regardless of frequency, with ((A,B),C,D);((A,C),B,D); it failed later with 'the group should be monophyletic' instead of the threshold error"),
+ ("C13", "C13-nexus-endblock", "the Nexus reader did not recognise ENDBLOCK", "\"#NEXUS BEGIN FOO; x y; ENDBLOCK; BEGIN TREES; TREE t=(a,b); END;\" delivered nothing and no error: the unsupported block was skipped up to the END; of the following TREES block (ENDBLOCK is the alternative spelling of END); a TREES block closed with ENDBLOCK; was reported as unterminated"),
+ ("C13", "C13-single-reader-line-breaks", "the single-tree Newick reader kept line breaks inside labels and numbers", "a tree written on several lines: \"((a,b)x\\n,c);\" read through utils.ReadTreeReader had the inner name \"x\\n\" (\"x\" through ReadMultiTrees), \"((a,b)0.9\\n,c);\" a node named \"0.9\\n\" instead of the support 0.9, \"(a:1\\n,b);\" an error: 'the first tree' differed from the first tree of the multi-tree reader"),
  ("C13", "C13-nexus-several-trees-blocks", "the Nexus reader kept only the trees of the last TREES block", "a Nexus file with two TREES blocks: \"#NEXUS BEGIN TREES;TREE t1=(a,b);END;BEGIN TREES;TREE t2=(c,d);END;\" delivered only t2 (id 0) through the parser, ReadMultiTrees and ReadTreeReader, t1 was dropped without an error; a tree followed by an empty TREES block delivered nothing"),
  ("C13", "C13-phyloxml-firsttree-nil", "PhyloXML FirstTree assigned a shadowed", "PhyloXML FirstTree returned (nil, nil): reading 'the first tree' of a PhyloXML file failed with 'No tree in the input PhyloXML file' although the iterator delivers it"),
 ]
